@@ -174,17 +174,19 @@ func verifC15_SessionStep() {
 			}
 			verifCover("retransmitted")
 		}
-		// every unacknowledged message stays reachable by later ticks
-		for i := 0; i < n; i++ {
-			if !q[i].acked {
-				found := false
-				for _, id := range s.pendingQueue {
-					if id == q[i].id {
-						found = true
-					}
+	}
+	// whatever the operation: every message that is still unacknowledged stays reachable
+	// by later resend ticks (it is in the resend queue and in the pending set)
+	for i := 0; i < n; i++ {
+		_, pending := s.pending[q[i].id]
+		if pending {
+			found := false
+			for _, id := range s.pendingQueue {
+				if id == q[i].id {
+					found = true
 				}
-				verifAssert(found, "unacknowledged-message-stays-in-resend-queue")
 			}
+			verifAssert(found, "unacknowledged-message-stays-in-resend-queue")
 		}
 	}
 }
